@@ -67,6 +67,13 @@ pub fn corr_default(ctx: &mut Ctx) {
             let mut d = SetSketcher::<u16, u64, FnvHasher>::default();
             let mut e = SetSketcher::<u16, u64, FnvHasher>::new(p, BuildHasherDefault::<FnvHasher>::default());
             let mut f = SetSketcher::<u16, u64, FnvHasher>::new(p2, BuildHasherDefault::<FnvHasher>::default());
+            // set_m: parameters whose m was set after construction must behave as parameters constructed with that m
+            let mut pm = SetSketchParams::new(b, 7, a, q);
+            pm.set_m(m as usize);
+            if pm.get_m() != m { panic!("set_m not reflected by get_m"); }
+            let mut g = SetSketcher::<u16, u64, FnvHasher>::new(pm, BuildHasherDefault::<FnvHasher>::default());
+            for x in &items { g.sketch(x).unwrap(); }
+            if dump(&g) != { let mut h = SetSketcher::<u16, u64, FnvHasher>::new(p2, BuildHasherDefault::<FnvHasher>::default()); for x in &items { h.sketch(x).unwrap(); } dump(&h) } { panic!("parameters built with set_m behave differently"); }
             for x in &items { d.sketch(x).unwrap(); e.sketch(x).unwrap(); f.sketch(x).unwrap(); }
             (dump(&d), dump(&e), dump(&f))
         }));
